@@ -26,7 +26,9 @@ Definition stage_temp (p : path) (chunks : list (list N)) : prog (outcome nat) :
 
 Definition BIG : N := 1099511627776.
 
+(** Read::read_to_end on a File: fstat for the size hint, then reads *)
 Definition read_all (fd : nat) : prog (list N) :=
+  quiet (CFstat fd) ;;;
   r <- call1 (CRead fd BIG) ;; Ret (match r with RData d => d | _ => [] end).
 
 Fixpoint bytes_eqb (a b : list N) : bool :=
